@@ -44,7 +44,8 @@ class TLCRun:
         self.timeout = timeout
         self.other: list[str] = []
         wd = os.path.join(SPEC, subdir)
-        cmd = ['java', '-XX:+UseParallelGC', '-Xss64m', f'-Xmx{heap}', f'-DTLA-Library={SPEC}{os.pathsep}{os.path.join(SPEC, "mc")}{os.pathsep}{os.path.join(SPEC, "trace")}',
+        # java.io.tmpdir: TLC unpacks its standard modules into a fresh directory there on every start; it goes away with the run
+        cmd = ['java', '-XX:+UseParallelGC', '-Xss64m', f'-Xmx{heap}', f'-Djava.io.tmpdir={self.tmp}', f'-DTLA-Library={SPEC}{os.pathsep}{os.path.join(SPEC, "mc")}{os.pathsep}{os.path.join(SPEC, "trace")}',
                '-cp', f'{JAR}:{DEPS}', 'tlc2.TLC', '-workers', str(workers), '-metadir', os.path.join(self.tmp, 'meta'),
                '-noGenerateSpecTE', '-config', cfg]
         if simulate is not None:
